@@ -48,6 +48,13 @@ func c01Units(tier string) []Unit {
 		b3.Scopes = 1
 		add("late-scope"+tag, cfg, nil, alpha{scopes: []int{0, 1}, ctors: []*uFunc{pA, pB, pM}, export: true,
 			decos: []*uFunc{dA}, invokes: []*uFunc{iA, iB, iO}, scopeOps: []int{0}}, d, b3)
+		// registrations rejected for a cycle (in the target scope, only in a
+		// descendant, through Export) followed by demands of the same keys:
+		// nothing a rejected function produced may ever be delivered
+		b4 := b
+		b4.Provides, b4.Rejected = 4, 2
+		add("rejected-by-cycle"+tag, cfg, prefixChild, alpha{scopes: []int{0, 1}, ctors: []*uFunc{pA, pB, rAB, rAoB}, export: true,
+			invokes: []*uFunc{iA, iB}}, d, b4)
 		if !q || !def {
 			add("chain3"+tag, cfg, prefixChain, alpha{scopes: []int{0, 1, 2}, ctors: []*uFunc{pA, pB}, export: true,
 				decos: []*uFunc{dA}, invokes: []*uFunc{iA, iB}}, d, b)
